@@ -65,6 +65,8 @@ static void h_run_case(hcase_t* c) {
   rt_reg((void*)&ch.queue.head, 8, 507, 8);
   rt_reg((void*)&ch.queue.tail, 8, 511, 8);
   rt_reg(nodes, sizeof nodes, 508, 2);
+  rt_reg_rest(&sig, sizeof sig, 13900);   /* search mode only: fields the model does not know */
+  rt_reg_rest(&ch, sizeof ch, 14900);
   rt_name(nodes, sizeof nodes, 1, sizeof nodes[0]);
   t1_run(n, prog, c->sched, c->nsched, dmax);
   rt_print_trace();
